@@ -1,9 +1,11 @@
 pub mod common;
 pub mod c02;
+pub mod c03;
 pub mod c05;
 pub mod c07;
 pub mod c08;
 pub mod c13;
+pub mod c20;
 
 use crate::engine::sched::{Choice, Cost, ScenarioFactory};
 
@@ -26,10 +28,12 @@ macro_rules! dispatch {
 
 dispatch! {
     "C02" => c02,
+    "C03" => c03,
     "C05" => c05,
     "C07" => c07,
     "C08" => c08,
     "C13" => c13,
+    "C20" => c20,
 }
 
 /// Re-run one recorded schedule of an engine-A scenario without the explorer and print what happened.
